@@ -18,7 +18,8 @@ PFX = {
     'BLpk': bytes([6, 149, 135, 204]),
     'B': bytes([1, 52]), 'src1': bytes([17, 165, 134, 138]),
     'BLsig': bytes([40, 171, 64, 207]), 'sig': bytes([4, 130, 43]), 'Net': bytes([87, 82, 0]),
-    'expr': bytes([13, 44, 64, 27]),
+    'expr': bytes([13, 44, 64, 27]), 'o': bytes([5, 116]),
+    'edsig': bytes([9, 245, 205, 134, 18]), 'spsig1': bytes([13, 115, 101, 19, 63]), 'p2sig': bytes([54, 240, 44, 52]),
 }
 PK_LEN = {'edpk': 32, 'sppk': 33, 'p2pk': 33, 'BLpk': 48}
 CURVE_OF_TZ = {'tz1': 0, 'tz2': 1, 'tz3': 2, 'tz4': 3}
@@ -80,13 +81,13 @@ def rand_nat(rng, big=True) -> int:
         return max(0, (1 << e) + rng.choice([-1, 0, 1]))
     if k < 0.9:
         return rng.getrandbits(rng.choice([3, 7, 8, 14, 15, 21, 28, 32, 56, 63, 64, 65]))
-    return rng.getrandbits(rng.randrange(1, 600 if big else 64))
+    return rng.getrandbits(rng.randrange(1, 600 if big else 64)) if rng.random() < 0.3 else rng.getrandbits(rng.randrange(1, 80))
 
 
 PRIMS0 = ['Unit', 'True', 'False', 'None', 'unit', 'nat', 'int', 'string', 'bytes', 'address', 'DROP', 'UNIT']
 
 
-def rand_micheline(rng, depth=3):
+def rand_micheline(rng, depth=2):
     k = rng.random()
     if depth <= 0 or k < 0.35:
         c = rng.random()
@@ -146,7 +147,7 @@ def manager_header(rng, source=None, unset=False):
 def rand_content(rng, kind: str, source=None, unset=False) -> dict:
     """One content of the given kind.  unset=True leaves source/fee/counter/limits for fill()."""
     if kind == 'failing_noop':
-        return {'kind': kind, 'arbitrary': ''.join(rng.choice('abc xyz019\n') for _ in range(rng.choice([0, 1, 5, 40, 300])))}
+        return {'kind': kind, 'arbitrary': ''.join(rng.choice('abc xyz019\n') for _ in range(rng.choice([0, 1, 5, 40, 40, 300])))}
     if kind == 'activate_account':
         return {'kind': kind, 'pkh': b58('tz1', rand_bytes(rng, 20)), 'secret': rand_bytes(rng, 20).hex()}
     if kind == 'endorsement':
@@ -204,6 +205,10 @@ def rand_group(rng, nmax=8, kinds=None, source=None) -> dict:
     kinds = kinds or (MANAGER_KINDS + OTHER_KINDS)
     n = rng.choice([1, 1, 2, 3, rng.randrange(1, nmax + 1)])
     return {'branch': rand_block_hash(rng), 'contents': [rand_content(rng, rng.choice(kinds), source) for _ in range(n)]}
+
+
+def b58o(digest: bytes) -> str:
+    return b58('o', digest)
 
 
 def zlen(n: int) -> int:
